@@ -349,3 +349,95 @@ Proof. split; vm_compute; reflexivity. Qed.
 (* an odd number of digits is refused *)
 Example dynamic_bytes_odd : dynamic_bytes_unmarshal (map byte_of_N [48; 120; 97; 66; 48]) = None.
 Proof. vm_compute. reflexivity. Qed.
+
+(* ------------------------------------------------------------------------------------ *)
+(** * 7. The eager failing writer (C13)
+
+    [ew_write_eager] (Extras.v) models an io.Writer that accepts [budget] bytes and reports its
+    failure in the very call that reaches the budget, also when that call's slice was accepted
+    completely; empty slices are not passed to the writer.  The accepted bytes are still the
+    first [b] bytes of the encoding and the counter still equals their number; the encoder
+    succeeds iff the encoding is strictly shorter than the budget (or empty).
+    [BitfieldsProofs.lenN] is the length of a list as an [N] (the one used by IOProofs). *)
+From Ztyp Require Import IO IOProofs.
+
+Lemma ew_write_all_eager_some : forall chunks b acc n w ok,
+  ew_write_all_eager (mkW (Some b) acc n) chunks = (w, ok) ->
+  w_accepted w = acc ++ firstn (nat_of b) (concat chunks) /\
+  w_n w = n + N.min b (BitfieldsProofs.lenN (concat chunks)) /\
+  (ok = true <-> (BitfieldsProofs.lenN (concat chunks) < b \/
+                  BitfieldsProofs.lenN (concat chunks) = 0)).
+Proof.
+  induction chunks as [|p r IH]; intros b acc n w ok H; cbn [ew_write_all_eager] in H.
+  - inversion H; subst. cbn [concat w_accepted w_n]. rewrite firstn_nil, app_nil_r.
+    unfold BitfieldsProofs.lenN; cbn [length]. repeat split; intros; lia.
+  - unfold ew_write_eager in H. cbn [w_budget w_accepted w_n] in H.
+    cbn [concat]. rewrite BitfieldsProofs.lenN_app, firstn_app.
+    unfold BitfieldsProofs.lenN at 1 3 5.
+    destruct (N.eqb_spec (N.of_nat (length p)) 0) as [Z|Z].
+    + (* an empty slice: the writer is not called *)
+      apply IH in H. destruct H as (A & Nn & O).
+      assert (Hp : p = []) by (destruct p; [reflexivity|cbn [length] in Z; lia]).
+      subst p. cbn [length firstn app]. rewrite Nat.sub_0_r.
+      rewrite firstn_nil. cbn [app].
+      split; [exact A|]. split; [rewrite Nn; cbn [length]; lia|]. rewrite O. cbn [length]. lia.
+    + destruct (N.ltb_spec (N.of_nat (length p)) b) as [L|L].
+      * apply IH in H. destruct H as (A & Nn & O).
+        rewrite A, Nn. rewrite (@firstn_all2 _ (nat_of b) p) by (unfold nat_of; lia).
+        rewrite <- app_assoc.
+        replace (nat_of b - length p)%nat with (nat_of (b - N.of_nat (length p)))
+          by (unfold nat_of; lia).
+        split; [reflexivity|]. split; [lia|]. rewrite O. lia.
+      * inversion H; subst. cbn [w_accepted w_n].
+        replace (nat_of b - length p)%nat with 0%nat by (unfold nat_of; lia).
+        cbn [firstn]. rewrite app_nil_r. split; [reflexivity|]. split; [lia|].
+        split; [discriminate|lia].
+Qed.
+Print Assumptions ew_write_all_eager_some.
+
+Lemma ew_write_all_eager_none : forall chunks acc n,
+  ew_write_all_eager (mkW None acc n) chunks =
+  (mkW None (acc ++ concat chunks) (n + BitfieldsProofs.lenN (concat chunks)), true).
+Proof.
+  induction chunks as [|p r IH]; intros acc n; cbn [ew_write_all_eager concat].
+  - now rewrite app_nil_r, N.add_0_r.
+  - unfold ew_write_eager.
+    destruct (N.eqb_spec (N.of_nat (length p)) 0) as [Z|Z].
+    + assert (Hp : p = []) by (destruct p; [reflexivity|cbn [length] in Z; lia]).
+      subst p. rewrite IH. reflexivity.
+    + cbn [w_budget]. unfold ew_write. cbn [w_budget w_accepted w_n].
+      rewrite IH, BitfieldsProofs.lenN_app, app_assoc.
+      unfold BitfieldsProofs.lenN at 2. now rewrite N.add_assoc.
+Qed.
+Print Assumptions ew_write_all_eager_none.
+
+Lemma writer_prefix_eager : forall b chunks w ok,
+  ew_write_all_eager (mkW (Some b) [] 0) chunks = (w, ok) ->
+  w_accepted w = firstn (nat_of b) (concat chunks) /\
+  w_n w = N.min b (BitfieldsProofs.lenN (concat chunks)) /\
+  (ok = true <-> (BitfieldsProofs.lenN (concat chunks) < b \/
+                  BitfieldsProofs.lenN (concat chunks) = 0)).
+Proof. intros b chunks w ok H. apply ew_write_all_eager_some in H. exact H. Qed.
+Print Assumptions writer_prefix_eager.
+
+Lemma writer_eager_nofail : forall chunks,
+  ew_write_all_eager (mkW None [] 0) chunks =
+  (mkW None (concat chunks) (BitfieldsProofs.lenN (concat chunks)), true).
+Proof. intro chunks. now rewrite ew_write_all_eager_none. Qed.
+Print Assumptions writer_eager_nofail.
+
+(* budget 9 = the total length of the encoding (2 + 0 + 4 + 3 bytes): every byte is accepted,
+   the counter is 9, and the encoder nevertheless reports the error; the plain writer of IO.v
+   with the same budget succeeds *)
+Example writer_prefix_eager_ex :
+  let chunks := map (map byte_of_N) [[1; 2]; []; [3; 4; 5; 6]; [7; 8; 9]] in
+  BitfieldsProofs.lenN (concat chunks) = 9 /\
+  ew_write_all_eager (mkW (Some 9) [] 0) chunks = (mkW (Some 0) (concat chunks) 9, false) /\
+  ew_write_all (mkW (Some 9) [] 0) chunks = (mkW (Some 0) (concat chunks) 9, true).
+Proof. vm_compute. repeat split. Qed.
+
+(* one byte more of budget and the same encoding succeeds *)
+Example writer_prefix_eager_ex_ok :
+  let chunks := map (map byte_of_N) [[1; 2]; []; [3; 4; 5; 6]; [7; 8; 9]] in
+  ew_write_all_eager (mkW (Some 10) [] 0) chunks = (mkW (Some 1) (concat chunks) 9, true).
+Proof. vm_compute. reflexivity. Qed.
